@@ -514,7 +514,7 @@ TIE_MINIMA = dict(
            'measure-eof': 50, 'measure-gme': 50, 'measure-wread': 10, 'measure-eofspec': 35, 'measure-gmespec': 35, 'measure-negread': 20},
     thorough={'ppt': 400, 'red': 400, 'gppt': 350, 'swap': 30, 'ptb': 60, 'vppt': 500, 'vred': 500, 'vgppt': 230, 'vswap': 200, 'hguard': 130, 'gpptlist': 4,
               'sxidx': 7, 'sxcon': 12, 'sxwit': 7, 'idx0213': 5, 'sxrealign': 14, 'extray': 5, 'irreprdm': 14,
-              'measure-eof': 500, 'measure-gme': 500, 'measure-wread': 10, 'measure-eofspec': 300, 'measure-gmespec': 300, 'measure-negread': 150})
+              'measure-eof': 340, 'measure-gme': 340, 'measure-wread': 10, 'measure-eofspec': 300, 'measure-gmespec': 300, 'measure-negread': 150})
 TIE_COVERED_BY = {'ppt': 'probe is_ppt:index', 'red': 'probe check_reduction_witness:index', 'gppt': 'probe is_generalized_ppt:index', 'swap': 'probe check_swap_witness:index',
                   'ptb': 'probe get_negativity:index', 'gpptlist': 'probe is_generalized_ppt:bipartitions'}
 
